@@ -258,6 +258,32 @@ def monitor(ctx):
                     ctx.violation('real %s grader: non-library exception escaped with debug off' % name, case, impl=val)
 
 
+def monitor_positions(ctx):
+    """one entry per submitted input IN INPUT ORDER, also when a grouping only renumbers the boxes (every group a single input)"""
+    from mitxgraders import ListGrader, StringGrader, NumericalGrader
+    rng = ctx.rng
+    words = ['cat', 'dog', 'emu', 'fox']
+    for it in range(ctx.scale(30, 300)):
+        n = rng.randint(2, 4)
+        perm = list(range(1, n + 1)); rng.shuffle(perm)
+        answers = [words[j] if j % 2 == 0 else str(j + 5) for j in range(n)]          # group j+1: a word (StringGrader) or a number (NumericalGrader)
+        subs = [StringGrader() if j % 2 == 0 else NumericalGrader() for j in range(n)]
+        g = ListGrader(answers=answers, subgraders=subs, ordered=True, grouping=perm, debug=rng.random() < 0.2)
+        right = [answers[perm[i] - 1] for i in range(n)]                              # what belongs in box i
+        for _ in range(3):
+            inp = [right[i] if rng.random() < 0.6 else rng.choice(['6', '7', '8', '11'] if right[i].isdigit() else words + ['zz']) for i in range(n)]
+            want = [inp[i] == right[i] for i in range(n)]
+            kind, val = GG.run_impl(lambda: g(None, inp))
+            ctx.contract_checks += 1
+            case = {'monitor': 'positions', 'grouping': perm, 'answers': answers, 'input': inp}
+            if kind != 'out':
+                ctx.violation('ListGrader with a renumbering grouping raised', case, impl=val); continue
+            got = [e['ok'] is True for e in val['input_list']]
+            if len(val['input_list']) != n or got != want:
+                ctx.violation('entries are not reported in input order: ok flags %r, the boxes hold %r' % (got, want), case, impl=val)
+            ctx.case(case, nontrivial_key=('positions', repr(perm), repr(inp)) if perm != sorted(perm) else None, kind='positions')
+
+
 def monitor_long_lists(ctx):
     """float arithmetic of the consolidation: long lists (up to 60 items) of the real graders, fully / partly correct, with extra and missing items:
     the credit stays in [0, 1], and a fully correct list is exactly 1 with ok=True"""
@@ -510,6 +536,7 @@ def run(ctx):
     run_model_part(ctx)
     part_interval(ctx)
     monitor(ctx)
+    monitor_positions(ctx)
     monitor_long_lists(ctx)
     debug_isolation(ctx)
     debug_registered_defaults(ctx)
